@@ -104,87 +104,90 @@ Proof.
   - right. split; [reflexivity|left; reflexivity].
 Qed.
 
+Ltac proj := cbn [pc cur future calls outl cancelled now log set_pc] in *.
+Ltac start_inv := constructor; unfold inflight, cur_rest; proj; try assumption; try discriminate.
+
+Lemma complete_cons_end : forall k t l, starts_complete l -> starts_complete (EEnd k t :: l).
+Proof. intros k t l H k' t' n ok [HH|HH]; [discriminate|exact (H k' t' n ok HH)]. Qed.
+
+Lemma spaced_cons_end : forall k t l, starts_spaced l -> starts_spaced (EEnd k t :: l).
+Proof.
+  intros k t l H k' t' n ok c [HH|HH]; [discriminate|]. destruct (H k' t' n ok c HH) as [t1 [A B]].
+  exists t1. split; [right; exact A|exact B].
+Qed.
+
 Lemma inv_step : forall s m s', inv s -> lstep s m = Some s' -> inv s'.
 Proof.
   intros s m s' I H. destruct I as [[pre [Hsub [Hcons Hpre]]] Hfut Hcalls Hend Hnil Htim Htlog Hcomp Hsp].
-  unfold Live.lstep in H.
+  unfold Live.lstep in H. unfold inflight, cur_rest in Hcons.
   destruct m as [| t | | t | |].
   - (* MDeliver *)
     destruct (pc s) eqn:Epc; try discriminate. destruct (cur s) as [[|r l]|] eqn:Ecur; try discriminate.
-    injection H as <-. unfold inflight, cur_rest in Hcons. rewrite Epc, Ecur in Hcons. cbn in Hcons.
-    constructor; cbn; try assumption; try discriminate.
+    injection H as <-. cbn [app] in Hcons. start_inv.
+    exists pre. repeat split; assumption.
   - (* MEndPass *)
     destruct (pc s) eqn:Epc; try discriminate. destruct (cur s) as [[|r l]|] eqn:Ecur; try discriminate.
-    destruct (now s <=? t) eqn:En; try discriminate. injection H as <-.
-    unfold inflight, cur_rest in Hcons. rewrite Epc, Ecur in Hcons. cbn in Hcons.
+    destruct (now s <=? t) eqn:En; try discriminate. injection H as <-. cbn [app] in Hcons.
     match goal with |- inv (enter_timer _ ?s1 _) => destruct (enter_timer_cases s1 t) as [[E [C R]]|[E C]]; rewrite E end;
-      cbn in *; constructor; cbn; try assumption; try discriminate.
-    + exists pre. unfold inflight, cur_rest. cbn. rewrite Ecur. cbn. repeat split; assumption.
+      proj; start_inv.
+    + exists pre. repeat split; assumption.
     + intros _. exact C.
-    + intros k t1 n ok [HH|HH]; [discriminate|]. exact (Hcomp k t1 n ok HH).
-    + intros R' k t' n ok c [HH|HH]; [discriminate|]. destruct (Hsp R' k t' n ok c HH) as [t1 [A B]].
-      exists t1. split; [right; exact A|exact B].
-    + exists pre. unfold inflight, cur_rest. cbn. rewrite Ecur. cbn. repeat split; assumption.
-    + intros t0 HH _. reflexivity.
+    + apply complete_cons_end. exact Hcomp.
+    + intros R'. apply spaced_cons_end. exact (Hsp R').
+    + exists pre. repeat split; assumption.
+    + intros t0 _ _. reflexivity.
     + intros R' t0 HH. injection HH as <-. left. reflexivity.
-    + intros k t1 n ok [HH|HH]; [discriminate|]. exact (Hcomp k t1 n ok HH).
-    + intros R' k t' n ok c [HH|HH]; [discriminate|]. destruct (Hsp R' k t' n ok c HH) as [t1 [A B]].
-      exists t1. split; [right; exact A|exact B].
+    + apply complete_cons_end. exact Hcomp.
+    + intros R'. apply spaced_cons_end. exact (Hsp R').
   - (* MAccept *)
-    destruct (pc s) eqn:Epc; try discriminate. injection H as <-.
-    unfold inflight, cur_rest in Hcons. rewrite Epc in Hcons. cbn in Hcons.
-    constructor; cbn; try assumption; try discriminate.
-    + exists (pre ++ [r]). unfold inflight, cur_rest. cbn. split; [apply subseq_snoc; exact Hsub|].
+    destruct (pc s) eqn:Epc; try discriminate. injection H as <-. cbn [app] in Hcons. start_inv.
+    + exists (pre ++ [r]). split; [apply subseq_snoc; exact Hsub|].
       split; [rewrite <- app_assoc; exact Hcons|]. intros C. rewrite (Hpre C). reflexivity.
-    + intros HN. destruct (Hnil HN) as [A|[A|[_ [t A]]]]; rewrite Epc in A; discriminate.
+    + intros _. left. reflexivity.
   - (* MTick *)
     destruct (pc s) eqn:Epc; try discriminate.
     destruct ((now s <=? t) && (t0 + rescan <=? t)) eqn:Eg; try discriminate.
     apply andb_true_iff in Eg. destruct Eg as [_ Eg]. apply Z.leb_le in Eg.
     destruct (future s) as [|p f] eqn:Ef; try discriminate. injection H as <-.
-    rewrite Ef in Hfut. symmetry in Hfut. destruct (skipn_cons_nth _ _ _ _ Hfut) as [Hn Hs].
-    unfold inflight, cur_rest in Hcons. rewrite Epc in Hcons. cbn in Hcons.
-    constructor; cbn; try discriminate.
-    + exists (pre ++ cur_rest s). unfold inflight, cur_rest. cbn.
-      split; [apply subseq_app_r; exact Hsub|]. rewrite (total_S _ _ _ Hn), <- Hcons. unfold cur_rest.
+    symmetry in Hfut. destruct (skipn_cons_nth _ _ _ _ Hfut) as [Hn Hs]. cbn [app] in Hcons. start_inv.
+    + exists (pre ++ match cur s with Some l => l | None => [] end).
+      split; [apply subseq_app_r; exact Hsub|]. rewrite (total_S _ _ _ Hn), <- Hcons.
       split; [destruct p; cbn; rewrite <- ?app_assoc, ?app_nil_r; reflexivity|].
-      intros C. rewrite (Htim t0 eq_refl C). cbn. rewrite app_nil_r. apply Hpre. exact C.
+      intros C. rewrite (Htim t0 eq_refl C). rewrite app_nil_r. apply Hpre. exact C.
     + symmetry. exact Hs.
     + lia.
-    + intros HN. left. reflexivity.
+    + intros _. left. reflexivity.
     + intros k t1 n ok [HH|HH]; [|exact (Hcomp k t1 n ok HH)].
-      injection HH as <- <- <- <- C. rewrite <- Hcons, (Htim t0 eq_refl C), (Hpre C). cbn. rewrite app_nil_r. reflexivity.
+      injection HH as <- <- <- <- C. rewrite <- Hcons, (Htim t0 eq_refl C), (Hpre C). rewrite app_nil_r. reflexivity.
     + intros R' k t' n ok c [HH|HH].
       * injection HH as Hk <- <- <- <-. exists t0. split; [|exact Eg]. right.
-        assert (X := Htlog R' t0 eq_refl). rewrite <- Hk in X. exact X.
+        assert (X := Htlog R' t0 eq_refl). rewrite Hk in X. cbn [Init.Nat.pred] in X. exact X.
       * destruct (Hsp R' k t' n ok c HH) as [t1 [A B]]. exists t1. split; [right; exact A|exact B].
   - (* MCancel *)
-    injection H as <-. constructor; cbn; try assumption.
+    injection H as <-. start_inv.
     + exists pre. repeat split; try assumption. discriminate.
     + intros _. reflexivity.
-    + intros t0 _ C. discriminate.
   - (* MDone *)
     destruct (pc s) eqn:Epc; try discriminate; destruct (cancelled s) eqn:Ec; try discriminate.
     + (* AtRead *)
-      injection H as <-. unfold inflight, cur_rest in Hcons. rewrite Epc in Hcons. cbn in Hcons.
-      destruct (enter_timer_cases s (now s)) as [[E [C R]]|[E C]]; rewrite E;
-        constructor; cbn; try assumption; try discriminate.
-      * exists pre. unfold inflight. cbn. repeat split; try assumption. rewrite Ec. discriminate.
+      injection H as <-. cbn [app] in Hcons.
+      destruct (enter_timer_cases s (now s)) as [[E [C R]]|[E C]]; rewrite E; start_inv.
+      * exists pre. repeat split; try assumption. rewrite Ec. discriminate.
+      * intros _. exact Ec.
       * intros _. right. left. reflexivity.
-      * exists pre. unfold inflight. cbn. repeat split; try assumption. rewrite Ec. discriminate.
-      * intros HN. right. right. destruct C as [C|C]; [congruence|]. split; [exact C|]. eexists. reflexivity.
+      * exists pre. repeat split; try assumption. rewrite Ec. discriminate.
+      * intros _. right. right. destruct C as [C|C]; [congruence|]. split; [exact C|]. eexists. reflexivity.
       * intros t0 _ C'. congruence.
       * intros R'. destruct C as [C|C]; [congruence|lia].
     + (* AtWrite: the request is dropped *)
-      injection H as <-. unfold inflight, cur_rest in Hcons. rewrite Epc in Hcons. cbn in Hcons.
-      constructor; cbn; try assumption; try discriminate.
-      * exists (pre ++ [r]). unfold inflight. cbn. split; [apply subseq_app_r; exact Hsub|].
+      injection H as <-. cbn [app] in Hcons. start_inv.
+      * exists (pre ++ [r]). split; [apply subseq_app_r; exact Hsub|].
         split; [rewrite <- app_assoc; exact Hcons|]. rewrite Ec. discriminate.
       * intros _. left. reflexivity.
     + (* AtTimer *)
-      injection H as <-. unfold inflight, cur_rest in Hcons. rewrite Epc in Hcons. cbn in Hcons.
-      constructor; cbn; try assumption; try discriminate.
-      * exists pre. unfold inflight. cbn. repeat split; try assumption. rewrite Ec. discriminate.
+      injection H as <-. cbn [app] in Hcons. start_inv.
+      * exists pre. repeat split; try assumption. rewrite Ec. discriminate.
+      * intros _. exact Ec.
       * intros _. right. left. reflexivity.
 Qed.
 
@@ -229,13 +232,13 @@ Proof. intros P s R. exact (i_spaced s (reach_inv s R) P). Qed.
 Lemma live_progress : forall s, reach s -> cancelled s = false -> cur s <> None -> future s <> [] ->
   exists m s', m <> MCancel /\ lstep s m = Some s'.
 Proof.
-  intros s R C N F. assert (I := reach_inv s R). unfold Live.lstep.
+  intros s R C N F. assert (I := reach_inv s R).
   destruct (pc s) eqn:Epc.
   - destruct (cur s) as [[|r l]|] eqn:Ecur; [| |now elim N].
-    + exists (MEndPass (now s)). rewrite Epc, Ecur, Z.leb_refl. eexists. split; [discriminate|reflexivity].
-    + exists MDeliver. rewrite Epc, Ecur. eexists. split; [discriminate|reflexivity].
-  - exists MAccept. rewrite Epc. eexists. split; [discriminate|reflexivity].
-  - exists (MTick (Z.max (now s) (t0 + rescan))). rewrite Epc.
+    + exists (MEndPass (now s)). unfold Live.lstep. rewrite Epc, Ecur, Z.leb_refl. eexists. split; [discriminate|reflexivity].
+    + exists MDeliver. unfold Live.lstep. rewrite Epc, Ecur. eexists. split; [discriminate|reflexivity].
+  - exists MAccept. unfold Live.lstep. rewrite Epc. eexists. split; [discriminate|reflexivity].
+  - exists (MTick (Z.max (now s) (t0 + rescan))). unfold Live.lstep. rewrite Epc.
     assert (G : ((now s <=? Z.max (now s) (t0 + rescan)) && (t0 + rescan <=? Z.max (now s) (t0 + rescan)))%bool = true)
       by (apply andb_true_iff; split; apply Z.leb_le; lia).
     rewrite G. destruct (future s) as [|p f]; [now elim F|]. eexists. split; [discriminate|reflexivity].
@@ -288,7 +291,7 @@ Lemma live_ended_final : forall s m s', pc s = Ended -> lstep rescan s m = Some 
   m = MCancel /\ pc s' = Ended /\ outl s' = outl s /\ calls s' = calls s.
 Proof.
   intros s m s' E H. unfold Live.lstep in H. rewrite E in H. destruct m; try discriminate.
-  injection H as <-. cbn. repeat split. exact E.
+  injection H as <-. cbn. repeat split; try assumption.
 Qed.
 
 (* [finish] and the trace acceptor only make moves of the model *)
@@ -297,17 +300,17 @@ Proof.
   intros s s' H. unfold finish, obind in H.
   destruct (is_ended s); [injection H as <-; exists []; reflexivity|].
   destruct (lstep rescan s MDone) as [s1|] eqn:E1; [|discriminate].
-  destruct (is_ended s1); [injection H as <-; exists [MDone]; cbn; rewrite E1; reflexivity|].
+  destruct (is_ended s1); [injection H as <-; exists [MDone]; cbn [run]; rewrite E1; reflexivity|].
   destruct (lstep rescan s1 MDone) as [s2|] eqn:E2; [|discriminate].
-  destruct (is_ended s2); [injection H as <-; exists [MDone; MDone]; cbn; rewrite E1, E2; reflexivity|].
+  destruct (is_ended s2); [injection H as <-; exists [MDone; MDone]; cbn [run]; rewrite E1, E2; reflexivity|].
   destruct (lstep rescan s2 MDone) as [s3|] eqn:E3; [|discriminate].
   destruct (is_ended s3); [|discriminate]. injection H as <-.
-  exists [MDone; MDone; MDone]. cbn. rewrite E1, E2, E3. reflexivity.
+  exists [MDone; MDone; MDone]. cbn [run]. rewrite E1, E2, E3. reflexivity.
 Qed.
 
 Lemma run_app : forall a b s s1 s2, run rescan s a = Some s1 -> run rescan s1 b = Some s2 -> run rescan s (a ++ b) = Some s2.
 Proof.
-  induction a as [|m a IH]; intros b s s1 s2 H1 H2; cbn in *.
+  induction a as [|m a IH]; intros b s s1 s2 H1 H2; cbn [run app] in *.
   - injection H1 as <-. exact H2.
   - destruct (lstep rescan s m) as [s'|]; [|discriminate]. exact (IH b s' s1 s2 H1 H2).
 Qed.
@@ -316,14 +319,14 @@ Lemma drop_inflight_is_run : forall s s', drop_inflight rescan s = Some s' -> ex
 Proof.
   intros s s' H. unfold drop_inflight in H. destruct (pc s);
     try (injection H as <-; exists []; reflexivity).
-  exists [MDone]. cbn. rewrite H. reflexivity.
+  exists [MDone]. cbn [run]. rewrite H. reflexivity.
 Qed.
 
 Lemma notice_close_is_run : forall tc s s', notice_close rescan tc s = Some s' -> exists ms, run rescan s ms = Some s'.
 Proof.
   intros tc s s' H. unfold notice_close in H. destruct (pc s);
     try (injection H as <-; exists []; reflexivity).
-  eexists [_]. cbn. rewrite H. reflexivity.
+  eexists [_]. cbn [run]. rewrite H. reflexivity.
 Qed.
 
 Lemma vstep_is_run : forall v e v', vstep rescan v e = Some v' -> exists ms, run rescan (vs v) ms = Some (vs v').
@@ -332,34 +335,34 @@ Proof.
   - (* VD *)
     destruct (drop_inflight rescan (vs v)) as [s1|] eqn:E1; cbn [obind] in H; [|discriminate].
     destruct (cur s1) as [[|r' l]|]; try discriminate. destruct (Nat.eqb r r'); [|discriminate].
-    destruct (lstep rescan s1 MDeliver) as [s2|] eqn:E2; [|discriminate]. injection H as <-. cbn.
+    destruct (lstep rescan s1 MDeliver) as [s2|] eqn:E2; [|discriminate]. injection H as <-. cbn [vs].
     destruct (drop_inflight_is_run _ _ E1) as [ms R]. exists (ms ++ [MDeliver]).
-    apply (run_app ms [MDeliver] _ s1 s2 R). cbn. rewrite E2. reflexivity.
+    apply (run_app ms [MDeliver] _ s1 s2 R). cbn [run]. rewrite E2. reflexivity.
   - (* VO *)
     destruct (pc (vs v)); try discriminate. destruct (Nat.eqb r r0); [|discriminate].
-    destruct (lstep rescan (vs v) MAccept) as [s2|] eqn:E2; [|discriminate]. injection H as <-. cbn.
-    exists [MAccept]. cbn. rewrite E2. reflexivity.
+    destruct (lstep rescan (vs v) MAccept) as [s2|] eqn:E2; [|discriminate]. injection H as <-. cbn [vs].
+    exists [MAccept]. cbn [run]. rewrite E2. reflexivity.
   - (* VC *)
     destruct (cur (vs v)) as [[|]|]; try discriminate. injection H as <-. exists []. reflexivity.
   - (* VG *)
     destruct (Nat.eqb k (calls (vs v))); [|discriminate].
     destruct (drop_inflight rescan (vs v)) as [s1|] eqn:E1; cbn [obind] in H; [|discriminate].
     destruct (notice_close rescan (vclose v) s1) as [s2|] eqn:E2; cbn [obind] in H; [|discriminate].
-    destruct (lstep rescan s2 (MTick t)) as [s3|] eqn:E3; [|discriminate]. injection H as <-. cbn.
+    destruct (lstep rescan s2 (MTick t)) as [s3|] eqn:E3; [|discriminate]. injection H as <-. cbn [vs].
     destruct (drop_inflight_is_run _ _ E1) as [ms1 R1]. destruct (notice_close_is_run _ _ _ E2) as [ms2 R2].
     exists (ms1 ++ ms2 ++ [MTick t]). apply (run_app ms1 _ _ s1 s3 R1). apply (run_app ms2 _ _ s2 s3 R2).
-    cbn. rewrite E3. reflexivity.
+    cbn [run]. rewrite E3. reflexivity.
   - (* VK *)
-    destruct (lstep rescan (vs v) MCancel) as [s2|] eqn:E2; [|discriminate]. injection H as <-. cbn.
-    exists [MCancel]. cbn. rewrite E2. reflexivity.
+    destruct (lstep rescan (vs v) MCancel) as [s2|] eqn:E2; [|discriminate]. injection H as <-. cbn [vs].
+    exists [MCancel]. cbn [run]. rewrite E2. reflexivity.
   - (* VX *)
-    destruct (finish rescan (vs v)) as [s2|] eqn:E2; [|discriminate]. injection H as <-. cbn.
+    destruct (finish rescan (vs v)) as [s2|] eqn:E2; [|discriminate]. injection H as <-. cbn [vs].
     exact (finish_is_run _ _ E2).
 Qed.
 
 Lemma vrun_is_run : forall tr i v v', vrun rescan i v tr = inr v' -> exists ms, run rescan (vs v) ms = Some (vs v').
 Proof.
-  induction tr as [|e tr IH]; intros i v v' H; cbn in H.
+  induction tr as [|e tr IH]; intros i v v' H; cbn [vrun] in H.
   - injection H as <-. exists []. reflexivity.
   - destruct (vstep rescan v e) as [v1|] eqn:E; [|discriminate].
     destruct (vstep_is_run _ _ _ E) as [ms1 R1]. destruct (IH _ _ _ H) as [ms2 R2].
